@@ -40,18 +40,39 @@ def r19_1(ctx: Ctx):
             obs.append(ctx.ob("R19.1", m, m.node, detail=f"{name}: effects {sorted({e[0] for e in effs})}", construct=name))
     d = ctx.prog.own_method("DemeTree", "pickle_dump")
     sn = d.self_name()
-    dumps = [c for c in body_walk(d.node) if isinstance(c, ast.Call) and isinstance(c.func, ast.Attribute) and c.func.attr == "dump"]
-    ok = len(dumps) == 1 and dumps[0].args and norm(dumps[0].args[0]) == sn
-    obs.append(ctx.ob("R19.1", d, dumps[0] if dumps else d.node, status=OK if ok else VIOLATION, detail="the whole tree object is dumped" if ok else f"pickle_dump dumps `{norm(dumps[0].args[0]) if dumps and dumps[0].args else '?'}` instead of the tree itself: part of the state is missing from the snapshot", construct="dump-self"))
+    dumps = [c for c in body_walk(d.node) if isinstance(c, ast.Call) and isinstance(c.func, ast.Attribute) and c.func.attr in ("dump", "dumps")]
+    ddefs = local_defs(d)
+    st_d = INCONCLUSIVE
+    what = "?"
+    if len(dumps) == 1 and dumps[0].args:
+        a0 = dumps[0].args[0]
+        hops = 0
+        while isinstance(a0, ast.Name) and a0.id != sn and len(ddefs.get(a0.id, [])) == 1 and hops < 3:
+            a0 = ddefs[a0.id][0]
+            hops += 1
+        what = norm(a0)
+        if what == sn:
+            st_d = OK
+            if dumps[0].func.attr == "dumps":
+                # the bytes must reach the file: <file>.write(<the dumps value>)
+                writes = [c for c in body_walk(d.node) if isinstance(c, ast.Call) and isinstance(c.func, ast.Attribute) and c.func.attr == "write" and len(c.args) == 1]
+                reach = any(w.args[0] is dumps[0] or (isinstance(w.args[0], ast.Name) and any(v is dumps[0] for v in ddefs.get(w.args[0].id, []))) for w in writes)
+                st_d = OK if reach else INCONCLUSIVE
+        elif isinstance(a0, (ast.Attribute, ast.Subscript, ast.Dict, ast.List, ast.Tuple)) or (isinstance(a0, ast.Call) and norm(a0.func) in ("copy.copy", "vars", "dict")):
+            st_d = VIOLATION  # a part / a projection of the tree
+    elif not dumps:
+        st_d = VIOLATION if not any(isinstance(c, ast.Call) for c in body_walk(d.node)) else INCONCLUSIVE
+    obs.append(ctx.ob("R19.1", d, dumps[0] if dumps else d.node, status=st_d, detail="the whole tree object is dumped" if st_d == OK else f"pickle_dump dumps `{what}` instead of the tree itself: part of the state is missing from the snapshot" if st_d == VIOLATION else f"cannot follow what pickle_dump serialises (`{what}`) into the file", construct="dump-self"))
     wb = [w for w in body_walk(d.node) if isinstance(w, ast.Call) and norm(w.func) == "open" and len(w.args) >= 2 and isinstance(w.args[1], ast.Constant)]
     okm = bool(wb) and all("b" in w.args[1].value and "w" in w.args[1].value for w in wb)
     obs.append(ctx.ob("R19.1", d, wb[0] if wb else d.node, status=OK if okm else VIOLATION, detail="binary write mode" if okm else "snapshot file is not opened in binary write mode", construct="dump-mode"))
     l = ctx.prog.own_method("DemeTree", "pickle_load")
-    loads = [c for c in body_walk(l.node) if isinstance(c, ast.Call) and isinstance(c.func, ast.Attribute) and c.func.attr == "load"]
+    loads = [c for c in body_walk(l.node) if isinstance(c, ast.Call) and isinstance(c.func, ast.Attribute) and c.func.attr in ("load", "loads")]
     rets = [r for r in body_walk(l.node) if isinstance(r, ast.Return)]
     defs = local_defs(l)
     ok = len(loads) == 1 and len(rets) == 1 and (rets[0].value is loads[0] or (isinstance(rets[0].value, ast.Name) and defs.get(rets[0].value.id, [None])[0] is loads[0] and len(defs[rets[0].value.id]) == 1))
-    obs.append(ctx.ob("R19.1", l, rets[0] if rets else l.node, status=OK if ok else VIOLATION, detail="returns exactly the loaded object" if ok else "pickle_load does not return the object it loaded unchanged", construct="load-return"))
+    definite = len(rets) == 1 and len(loads) == 1 and not ok and (rets[0].value is None or isinstance(rets[0].value, (ast.Constant, ast.Attribute, ast.Subscript)) or (isinstance(rets[0].value, ast.Call) and not any(x is loads[0] for x in ast.walk(rets[0].value))))
+    obs.append(ctx.ob("R19.1", l, rets[0] if rets else l.node, status=OK if ok else VIOLATION if definite else INCONCLUSIVE, detail="returns exactly the loaded object" if ok else "pickle_load does not return the object it loaded unchanged", construct="load-return"))
     return obs
 
 
